@@ -393,7 +393,8 @@ class StrategyBase(Node):
 
     def __init__(self, name, children=None, parent=None):
         Node.__init__(self, name, children=children, parent=parent)
-        self._weight = 1
+        # a strategy attached to an existing parent holds nothing yet
+        self._weight = 1 if self.parent is self else 0
         self._value = 0
         self._notl_value = 0
         self._price = PAR
